@@ -351,7 +351,7 @@ def run(index, rep, tier):
     # ---------------- R05.2 merges add like to like
     with rep.section("R05.2 like to like"):
         from . import c06
-        rep.floor("R05.2", "field-to-field merges in SplitDistribution.update", 5, c06.like_to_like_rule(index, rep, "R05.2", [SD + ".update"]))
+        rep.floor("R05.2", "field-to-field merges in SplitDistribution.update", 3, c06.like_to_like_rule(index, rep, "R05.2", [SD + ".update"]))
 
     # ---------------- R05.11
     with rep.section("R05.11"):
@@ -705,6 +705,12 @@ def run(index, rep, tier):
                     rep.check(nd not in seen, "R05.15", fi.qualname, "`%s` can be read at index -1" % norm(x), fn_where(fi, x), "%s: `%s` only with a non-negative index" % (fi.name, norm(x)),
                               "%s reads `%s` where `%s = %s` can be -1 (the product rounds to 0 for a small sample) and no test on the way refuses that: Python wraps a negative index around, so the lower quantile of fewer than ten values is their largest value - the summary of a split seen in a handful of trees reports a 5%% bound above its 95%% bound" % (fi.qualname, norm(x), nm, norm(subs_idx[nm].value)[:40]))
         rep.floor("R05.15", "order statistics read at a computed index", 1, n15)
+
+    # ---- R05.16 what a merge takes from the other collection, it copies
+    with rep.section("R05.16"):
+        rep.rule("R05.16", "what a merge takes from the other collection it copies: SplitDistribution.update / TreeArray merges never store the other operand's own list objects in the receiver (C06 R06.6) - the receiver would append its later trees into them, and the summaries of the FIRST operand (means, medians, ranges of its edge lengths and node ages) would change although none of its trees did")
+        nb = borrow(index, rep, "C06", {"R06.6"}, "R05.16")
+        rep.floor("R05.16", "borrowed obligations", 2, nb)
 
 
 def _weight_rule_text(fi, name):
